@@ -302,14 +302,73 @@ Proof.
   destruct (dot_step st c) as [[st' out] fin]. destruct fin; [apply Hk|apply IH; exact Hk].
 Qed.
 
-Lemma smtp_persistent fuel : forall st i buf, persistent (smtp_prog fuel st i buf).
+Lemma smtp_step_persistent clean self dotfuel st i buf line :
+  (forall st i buf, persistent (self st i buf)) -> persistent (smtp_step clean self dotfuel st i buf line).
+Proof.
+  intros Hs. unfold smtp_step. destruct st.
+  - repeat (first [apply Hs | per_step]).
+  - repeat (first [apply Hs | per_step]).
+  - repeat (first [apply Hs | apply dot_persistent; intros ? | per_step]).
+Qed.
+
+Lemma smtp_persistent clean fuel : forall st i buf, persistent (smtp_prog clean fuel st i buf).
 Proof.
   induction fuel as [|f IH]; intros st i buf; cbn [smtp_prog]; [constructor|].
   constructor. intros res. destruct (tp_line res) as [line|]; [|constructor].
-  constructor. destruct st.
-  - repeat per_step; apply IH.
-  - repeat per_step; apply IH.
-  - repeat (first [apply IH | apply dot_persistent; intros ? | per_step]).
+  constructor. apply smtp_step_persistent. exact IH.
+Qed.
+
+(* ---- smtp mail accumulation, command by command (for every continuation [self]) ---- *)
+(* RSET inside a transaction: the dialogue goes on with an EMPTY chunk buffer *)
+Lemma smtp_rset_in_transaction clean self df i buf line :
+  line <> [] -> is_command line s_RSET = true ->
+  smtp_step clean self df SMail i buf line = self SLoop i [].
+Proof. intros Hl Hr. unfold smtp_step. destruct line; [congruence|]. rewrite Hr. reflexivity. Qed.
+
+(* a BDAT chunk that is not LAST: exactly [count] bytes are appended to the buffer *)
+Lemma smtp_bdat_chunk clean self df i buf line w cnt count :
+  line <> [] -> is_command line s_RSET = false -> is_command line s_RCPTTO = false ->
+  is_command line s_BDAT = true -> split_on SP line = [w; cnt] -> parse_int 32 cnt = Some count ->
+  smtp_step clean self df SMail i buf line =
+  PTake (Z.to_nat count) (fun chunk =>
+    if length chunk <? Z.to_nat count then PDone 0 else self SMail i (buf ++ chunk)).
+Proof.
+  intros Hl H1 H2 H3 H4 H5. unfold smtp_step. destruct line; [congruence|].
+  rewrite H1, H2, H3, H4, H5. reflexivity.
+Qed.
+
+(* BDAT n LAST: the mail reported is parsed from the buffer ++ this chunk - the bytes received
+   since the buffer was last emptied - and the next mail starts with an empty buffer *)
+Lemma smtp_bdat_last clean self df i buf line w cnt count :
+  line <> [] -> is_command line s_RSET = false -> is_command line s_RCPTTO = false ->
+  is_command line s_BDAT = true -> split_on SP line = [w; cnt; s_LAST] -> parse_int 32 cnt = Some count ->
+  smtp_step clean self df SMail i buf line =
+  PTake (Z.to_nat count) (fun chunk =>
+    if length chunk <? Z.to_nat count then PDone 0
+    else match mail_parse (buf ++ chunk) with
+         | None => PDone 0
+         | Some m => PEmit (mail_event m) (self SLoop i [])
+         end).
+Proof.
+  intros Hl H1 H2 H3 H4 H5. unfold smtp_step. destruct line; [congruence|].
+  rewrite H1, H2, H3, H4, H5. reflexivity.
+Qed.
+
+(* reference reading: MAIL FROM opens a transaction with an empty buffer; the code keeps it *)
+Lemma smtp_mail_from clean self df i buf line :
+  line <> [] -> (LOOP_TRESHOLD <? S i) = false -> is_command line s_MAILFROM = true ->
+  smtp_step clean self df SLoop i buf line = self SMail (S i) (if clean then [] else buf).
+Proof. intros Hl Ht Hm. unfold smtp_step. destruct line; [congruence|]. rewrite Ht, Hm. reflexivity. Qed.
+
+(* the code and the reference reading differ in nothing else *)
+Lemma smtp_code_is_reference_step self df st i buf line :
+  (st = SLoop -> is_command line s_MAILFROM = true -> buf = []) ->
+  smtp_step false self df st i buf line = smtp_step true self df st i buf line.
+Proof.
+  intros H. unfold smtp_step. destruct st; try reflexivity.
+  destruct line; [reflexivity|]. destruct (LOOP_TRESHOLD <? S i); [reflexivity|].
+  destruct (is_command (n :: line) s_MAILFROM) eqn:E; [|reflexivity].
+  rewrite (H eq_refl eq_refl). reflexivity.
 Qed.
 
 Lemma redis_persistent fuel : forall stack, persistent (redis_prog fuel stack).
@@ -366,8 +425,15 @@ Qed.
 Lemma ftp_run c : run_impl SVC_FTP c = expected SVC_FTP (concat c).
 Proof. unfold run_impl, expected. apply persistent_obs. apply ftp_persistent. Qed.
 
-Lemma smtp_run c : run_impl SVC_SMTP c = expected SVC_SMTP (concat c).
-Proof. unfold run_impl, expected. apply persistent_obs. apply smtp_persistent. Qed.
+(* the code's events are a function of the stream (its own reading of it) *)
+Lemma smtp_run_code c :
+  run_impl SVC_SMTP c = str_obs (impl_prog SVC_SMTP (fuel_for (concat c))) (concat c).
+Proof. unfold run_impl. apply persistent_obs. apply smtp_persistent. Qed.
+
+(* the reference reading itself is realised by a persistent-reader program *)
+Lemma smtp_reference_run c :
+  seg_obs (spec_prog SVC_SMTP (fuel_for (concat c))) c = expected SVC_SMTP (concat c).
+Proof. unfold expected. apply persistent_obs. apply smtp_persistent. Qed.
 
 Lemma redis_run c : run_impl SVC_REDIS c = expected SVC_REDIS (concat c).
 Proof. unfold run_impl, expected. apply persistent_obs. apply redis_persistent. Qed.
@@ -541,6 +607,155 @@ Proof.
   - exists s. split; [reflexivity|exact E].
 Qed.
 
+(* ------------------------------------------------------------------ *)
+(* redis: the RESP reader parses a concatenation of well-formed commands into exactly those
+   commands - for ALL argument byte strings without LF, the empty one included            *)
+(* ------------------------------------------------------------------ *)
+Definition CRLF : bytes := [CR; LF].
+Definition no_lf (t : bytes) : bool := forallb (fun b => negb (beq b LF)) t.
+(* a line the Scanner accepts: no LF inside, not longer than its token limit *)
+Definition line_ok (t : bytes) : Prop := no_lf t = true /\ (blen t + 2 <= MAXTOK)%N.
+
+Lemma split_delim_no_lf t : no_lf t = true -> split_delim LF t = None.
+Proof.
+  induction t as [|x t IH]; cbn [no_lf forallb split_delim]; [reflexivity|].
+  intros H. apply andb_true_iff in H as [Hx Ht]. apply negb_true_iff in Hx. rewrite Hx.
+  unfold no_lf in IH. rewrite (IH Ht). reflexivity.
+Qed.
+
+Lemma s_until_line t rest : no_lf t = true -> s_until LF (t ++ CRLF ++ rest) = (RLine (t ++ CRLF), rest).
+Proof.
+  intros H. unfold s_until. rewrite (split_delim_none_app _ _ _ (split_delim_no_lf t H)).
+  reflexivity.
+Qed.
+
+Lemma frev_rev {A} (l : list A) : frev l = rev l.
+Proof. unfold frev. rewrite rev_append_rev. apply app_nil_r. Qed.
+
+Lemma scan_token_line t : line_ok t -> scan_token (RLine (t ++ CRLF)) = Some t.
+Proof.
+  intros [Hn Hl]. unfold scan_token.
+  assert (Hb : (MAXTOK <? blen (t ++ CRLF))%N = false).
+  { unfold blen in *. rewrite app_length. cbn [CRLF length]. apply N.ltb_ge. lia. }
+  rewrite Hb. unfold CRLF.
+  replace (removelast (t ++ [CR; LF])) with (t ++ [CR])
+    by (rewrite removelast_app by discriminate; reflexivity).
+  unfold drop_cr. rewrite frev_rev, rev_unit. unfold CR at 1.
+  rewrite removelast_app by discriminate. cbn [removelast]. rewrite app_nil_r. reflexivity.
+Qed.
+
+Lemma run_scan k t rest : line_ok t -> run_str (PScan k) (t ++ CRLF ++ rest) = run_str (k (Some t)) rest.
+Proof.
+  intros H. unfold PScan. cbn [run_str]. rewrite (s_until_line t rest (proj1 H)).
+  rewrite (scan_token_line t H). reflexivity.
+Qed.
+
+Definition redis_top (f : nat) (top : datum) : prog :=
+  match top with
+  | DScalar 0%N _ => redis_prog f []
+  | DScalar _ _ => PDone 0
+  | DArr [] => PDone 2
+  | DArr (DScalar ty s :: _) =>
+      if beq ty 43%N || beq ty 36%N then PEmit (mkEv EV_REDIS [s]) (redis_prog f []) else PDone 0
+  | DArr (DArr _ :: _) => PDone 0
+  end.
+Definition redis_finish (f : nat) (stack : list (N * list datum)) (d : datum) : prog :=
+  match deliver d stack with
+  | inr stack' => redis_prog f stack'
+  | inl top => redis_top f top
+  end.
+
+(* a bulk string "$<len>\r\n<arg>\r\n": the datum delivered is exactly arg *)
+Lemma redis_bulk f stack lt v arg rest :
+  length stack <= MAX_ARRAY_DEPTH -> parse_uint64 lt = Some v -> line_ok (36%N :: lt) -> line_ok arg ->
+  run_str (redis_prog (S f) stack) ((36%N :: lt) ++ CRLF ++ arg ++ CRLF ++ rest) =
+  run_str (redis_finish f stack (DScalar 36%N arg)) rest.
+Proof.
+  intros Hd Hp Hl Ha. cbn [redis_prog].
+  assert (Hdepth : (MAX_ARRAY_DEPTH <? length stack) = false) by (apply Nat.ltb_ge; exact Hd).
+  rewrite Hdepth. rewrite (run_scan _ _ _ Hl). cbv beta iota.
+  change (beq 36%N 42%N) with false. change (beq 36%N 43%N) with false. change (beq 36%N 36%N) with true.
+  cbv beta iota. rewrite Hp. rewrite (run_scan _ _ _ Ha). reflexivity.
+Qed.
+
+(* "*<n>\r\n" with n > 0 at top level opens an array of n items *)
+Lemma redis_array_header f cnt n rest :
+  parse_uint64 cnt = Some n -> n <> 0%N -> line_ok (42%N :: cnt) ->
+  run_str (redis_prog (S f) []) ((42%N :: cnt) ++ CRLF ++ rest) = run_str (redis_prog f [(n, [])]) rest.
+Proof.
+  intros Hp Hn Hl. cbn [redis_prog]. change (MAX_ARRAY_DEPTH <? length (@nil (N * list datum))) with false.
+  cbv beta iota. rewrite (run_scan _ _ _ Hl). cbv beta iota.
+  change (beq 42%N 42%N) with true. cbv beta iota. rewrite Hp. destruct n; [congruence|reflexivity].
+Qed.
+
+Definition wf_arg (a : bytes * bytes) : Prop :=
+  (exists v, parse_uint64 (fst a) = Some v) /\ line_ok (36%N :: fst a) /\ line_ok (snd a).
+Definition enc_arg (a : bytes * bytes) : bytes := (36%N :: fst a) ++ CRLF ++ snd a ++ CRLF.
+Definition arg_datum (a : bytes * bytes) : datum := DScalar 36%N (snd a).
+
+Lemma redis_items args : forall f acc rest,
+  Forall wf_arg args -> args <> [] ->
+  run_str (redis_prog (length args + f) [(N.of_nat (length args), acc)]) (concat (map enc_arg args) ++ rest) =
+  run_str (redis_top f (DArr (frev (rev (map arg_datum args) ++ acc)))) rest.
+Proof.
+  induction args as [|a tl IH]; intros f acc rest Hwf Hne; [congruence|].
+  inversion Hwf as [|? ? [[v Hv] [Hl Ha]] Hwf']; subst.
+  change (length (a :: tl)) with (S (length tl)). change (S (length tl) + f) with (S (length tl + f)).
+  cbn [map concat]. unfold enc_arg at 1. repeat rewrite <- app_assoc.
+  rewrite (redis_bulk _ _ _ v) by first [assumption | unfold MAX_ARRAY_DEPTH; cbn [length]; lia].
+  unfold redis_finish. cbn [deliver].
+  assert (Hcase : tl = [] \/ tl <> []) by (destruct tl; [left; reflexivity | right; discriminate]).
+  destruct Hcase as [->|Hnil].
+  - change (N.of_nat (S (length (@nil (bytes * bytes)))) <=? 1)%N with true. cbv beta iota. cbn [deliver].
+    cbn [map rev app length Nat.add]. reflexivity.
+  - assert (Hlen : length tl <> 0) by (destruct tl; [congruence|discriminate]).
+    assert (Hn : (N.of_nat (S (length tl)) <=? 1)%N = false) by (apply N.leb_gt; lia).
+    rewrite Hn. replace (N.of_nat (S (length tl)) - 1)%N with (N.of_nat (length tl)) by lia.
+    pose proof (IH f (arg_datum a :: acc) rest Hwf' Hnil) as IH'. unfold arg_datum in *.
+    etransitivity; [exact IH'|]. cbn [map rev]. rewrite <- app_assoc. reflexivity.
+Qed.
+
+(* a well-formed command: "*<n>\r\n" followed by n >= 1 bulk strings *)
+Definition wf_cmd (c : bytes * list (bytes * bytes)) : Prop :=
+  parse_uint64 (fst c) = Some (N.of_nat (length (snd c))) /\ snd c <> [] /\
+  line_ok (42%N :: fst c) /\ Forall wf_arg (snd c).
+Definition enc_cmd (c : bytes * list (bytes * bytes)) : bytes :=
+  (42%N :: fst c) ++ CRLF ++ concat (map enc_arg (snd c)).
+Definition cmd_event (c : bytes * list (bytes * bytes)) : event :=
+  mkEv EV_REDIS [match snd c with a :: _ => snd a | [] => [] end].
+Definition cmd_cost (c : bytes * list (bytes * bytes)) : nat := S (length (snd c)).
+
+Lemma redis_command c f rest :
+  wf_cmd c ->
+  run_str (redis_prog (cmd_cost c + f) []) (enc_cmd c ++ rest) =
+  let '(es, code, ok) := run_str (redis_prog f []) rest in (cmd_event c :: es, code, ok).
+Proof.
+  destruct c as [cnt args]. intros (Hp & Hne & Hl & Hwf). cbn [fst snd] in *.
+  unfold enc_cmd, cmd_cost, cmd_event. cbn [fst snd]. repeat rewrite <- app_assoc.
+  change (S (length args) + f) with (S (length args + f)).
+  rewrite (redis_array_header _ _ _ _ Hp) by first [assumption | (destruct args; [congruence|cbn [length]; lia])].
+  rewrite (redis_items args f [] rest Hwf Hne). rewrite app_nil_r, frev_rev, rev_involutive.
+  destruct args as [|a args]; [congruence|]. cbn [map redis_top arg_datum].
+  change (beq 36%N 43%N || beq 36%N 36%N) with true. cbv beta iota. cbn [run_str]. reflexivity.
+Qed.
+
+Fixpoint cmds_cost (cs : list (bytes * list (bytes * bytes))) : nat :=
+  match cs with [] => 0 | c :: r => cmd_cost c + cmds_cost r end.
+
+(* the theorem: any sequence of well-formed commands, arguments arbitrary (LF-free) byte
+   strings, is read as exactly one event per command, in order, and nothing else *)
+Lemma redis_commands cs : forall f,
+  Forall wf_cmd cs ->
+  str_obs (redis_prog (cmds_cost cs + S f) []) (concat (map enc_cmd cs)) = (map cmd_event cs, 0%N).
+Proof.
+  unfold str_obs. induction cs as [|c cs IH]; intros f Hwf.
+  - reflexivity.
+  - inversion Hwf as [|? ? Hc Hcs]; subst. cbn [map concat cmds_cost].
+    rewrite <- Nat.add_assoc. rewrite (redis_command c _ _ Hc).
+    specialize (IH f Hcs). destruct (run_str (redis_prog (cmds_cost cs + S f) []) (concat (map enc_cmd cs))) as [[es code] ok].
+    injection IH as -> ->. reflexivity.
+Qed.
+
 (* ---- ldap: one persistent reader, exact counts only ---- *)
 Lemma ldap_message_persistent t content k : persistent k -> persistent (ldap_message t content k).
 Proof. intros Hk. unfold ldap_message. repeat (first [exact Hk | per_step]). Qed.
@@ -652,3 +867,13 @@ Definition C04_full_datagram (svc : N) : Prop := forall d, run_impl svc [d] = ex
 Lemma persistent_reads_the_stream p segs :
   persistent p -> seg_obs p segs = str_obs p (concat segs) /\ seg_dropped p segs = [].
 Proof. intros H. split; [exact (persistent_obs p segs H)|exact (persistent_nothing_dropped p segs H)]. Qed.
+
+(* smtp: a transaction abandoned WITHOUT RSET (here by an unknown command) leaves its chunk in
+   the buffer, and the next mail's event carries it *)
+Definition W_SMTP_STALE : bytes := [72;69;76;79;32;99;13;10;77;65;73;76;32;70;82;79;77;58;60;97;64;98;62;13;10;66;68;65;84;32;49;52;13;10;83;117;98;106;101;99;116;58;32;111;108;100;13;10;13;10;78;79;79;80;13;10;77;65;73;76;32;70;82;79;77;58;60;97;64;98;62;13;10;66;68;65;84;32;49;56;32;76;65;83;84;13;10;83;117;98;106;101;99;116;58;32;110;101;119;13;10;13;10;104;105;13;10]%N.
+Definition mail_events (es : list event) : list event := filter (fun e => beq (ev_ty e) EV_SMTP_MAIL) es.
+Lemma smtp_abandoned_chunk_refuted :
+  fst (run_impl SVC_SMTP [W_SMTP_STALE]) <> fst (expected SVC_SMTP W_SMTP_STALE) /\
+  mail_events (fst (expected SVC_SMTP W_SMTP_STALE)) = [mkEv EV_SMTP_MAIL [[104;105]%N; [110;101;119]%N]] /\
+  mail_events (fst (run_impl SVC_SMTP [W_SMTP_STALE])) = [mkEv EV_SMTP_MAIL [[104;105]%N; [111;108;100;44;110;101;119]%N]].
+Proof. split; [vm_compute; discriminate|]. split; vm_compute; reflexivity. Qed.
